@@ -48,6 +48,10 @@ def mgmt_alphabet(dom=False, with_rbac=True, with_unknown=True):
     for r in gr[:4]:
         al.append(A("g", "g", r))
         al.append(R("g", "g", r))
+    # values with leading / trailing blanks are ordinary values for the store (only the text adapters trim)
+    padded = [pr[1][0] + " "] + pr[1][1:-1] + [" " + pr[1][-1]]
+    al.append(A("p", "p", padded))
+    al.append(R("p", "p", padded))
     al.append(AM("p", "p", [pr[0], pr[1]]))
     al.append(AM("p", "p", [pr[2], pr[2]]))          # internal duplicate
     al.append(AM("p", "p", []))
